@@ -463,6 +463,10 @@ def run(ck: Check, repo: Repo) -> None:
     # 'every covered file': which files are covered is decided by is_path_ignored (table shared with C03-R2)
     from . import c03
     c03.shared_decision(ck, repo, "R7")
+    # clause (b): 'a known SPDX identifier or a LicenseRef-' - the LicenseRef- language and case-sensitivity (shared with C06-R5)
+    from . import c06
+    from ..fold import Folder
+    c06.rule_language_and_case(ck, repo, Folder(repo), "R8")
     ck.exhaustive = True
 
 
